@@ -1,6 +1,7 @@
 package harness
 
 import (
+	"strings"
 	"crypto/sha256"
 	"encoding/hex"
 	"fmt"
@@ -123,6 +124,27 @@ func (w *World) projectProvider(c *Chain, ctx sdk.Context) map[string]any {
 		}
 	}
 	s["order"] = orEmpty(order)
+	// the staking views the provider module offers to governance and mint (staking_keeper_interface.go)
+	var iter []any
+	_ = pk.IterateBondedValidatorsByPower(ctx, func(_ int64, v stakingtypes.ValidatorI) bool {
+		if nm, ok := n.ValByOp[v.GetOperator()]; ok {
+			iter = append(iter, nm)
+		} else {
+			iter = append(iter, "unknown")
+		}
+		return false
+	})
+	views := map[string]any{"iter": orEmpty(iter), "total": int64(-1), "ratioTotal": int64(-1)}
+	if tot, err := pk.TotalBondedTokens(ctx); err == nil {
+		views["total"] = clampInt(tot.Int64())
+	}
+	// BondedRatio is reported as the token amount it stands for (ratio x supply, rounded): TLC integers are 32-bit
+	if ratio, err := pk.BondedRatio(ctx); err == nil {
+		if sup, err := pk.StakingTokenSupply(ctx); err == nil {
+			views["ratioTotal"] = clampInt(ratio.MulInt(sup).RoundInt().Int64())
+		}
+	}
+	s["views"] = views
 	if ub, err := sk.UnbondingTime(ctx); err == nil {
 		s["U"] = int64(ub.Seconds())
 	}
@@ -162,8 +184,19 @@ func (w *World) projectProvider(c *Chain, ctx sdk.Context) map[string]any {
 	}
 	s["pool"] = pool
 	s["epochsToReward"] = pk.GetNumberOfEpochsToStartReceivingRewards(ctx)
-	// distribution view for reward denoms (everything but the bond denom): outstanding rewards per validator,
-	// community pool, total supply -- integer parts
+	// distribution view for reward denoms: outstanding rewards per validator, community pool, total supply -- integer
+	// parts. The bond denom is left out (inflation moves it every block) unless it is itself a registered reward denom.
+	skipDenom := func(d string) bool {
+		if d != BondDenom {
+			return false
+		}
+		for _, r := range pk.GetAllConsumerRewardDenoms(ctx) {
+			if r == BondDenom {
+				return false
+			}
+		}
+		return true
+	}
 	outst := map[string]any{}
 	for _, v := range allVals {
 		name, ok := n.ValByOp[v.OperatorAddress]
@@ -174,8 +207,8 @@ func (w *World) projectProvider(c *Chain, ctx sdk.Context) map[string]any {
 		m := map[string]any{}
 		if or, err := app.DistrKeeper.GetValidatorOutstandingRewards(ctx, valAddr); err == nil {
 			for _, dc := range or.Rewards {
-				if dc.Denom != BondDenom {
-					m[dc.Denom] = dc.Amount.TruncateInt().Int64()
+				if !skipDenom(dc.Denom) {
+					m[dc.Denom] = clampInt(dc.Amount.TruncateInt().Int64())
 				}
 			}
 		}
@@ -192,8 +225,8 @@ func (w *World) projectProvider(c *Chain, ctx sdk.Context) map[string]any {
 		m := map[string]any{}
 		if ac, err := app.DistrKeeper.GetValidatorAccumulatedCommission(ctx, valAddr); err == nil {
 			for _, dc := range ac.Commission {
-				if dc.Denom != BondDenom {
-					m[dc.Denom] = dc.Amount.TruncateInt().Int64()
+				if !skipDenom(dc.Denom) {
+					m[dc.Denom] = clampInt(dc.Amount.TruncateInt().Int64())
 				}
 			}
 		}
@@ -203,8 +236,8 @@ func (w *World) projectProvider(c *Chain, ctx sdk.Context) map[string]any {
 	comm := map[string]any{}
 	if fp, err := app.DistrKeeper.FeePool.Get(ctx); err == nil {
 		for _, dc := range fp.CommunityPool {
-			if dc.Denom != BondDenom {
-				comm[dc.Denom] = dc.Amount.TruncateInt().Int64()
+			if !skipDenom(dc.Denom) {
+				comm[dc.Denom] = clampInt(dc.Amount.TruncateInt().Int64())
 			}
 		}
 	}
@@ -872,7 +905,12 @@ func (w *World) describePacket(dstPort string, data []byte) map[string]any {
 			if w.P != nil {
 				toPool = ft.Receiver == w.poolAddr
 			}
-			return map[string]any{"type": "transfer", "denom": ft.Denom, "amt": amt, "memoC": memoC, "toPool": toPool}
+			// "denom" is the denom as the SENDER holds it (a voucher that travels back is written as its full path in the packet)
+			local := ft.Denom
+			if strings.Contains(local, "/") {
+				local = ccvtypes.ParseDenomTrace(local).IBCDenom()
+			}
+			return map[string]any{"type": "transfer", "denom": local, "path": ft.Denom, "amt": amt, "memoC": memoC, "toPool": toPool}
 		}
 	}
 	return map[string]any{"type": "other", "port": dstPort}
